@@ -20,17 +20,33 @@ type c13Val struct {
 	V    any
 }
 
+// named (defined) types of every basic kind: conversion code that switches on concrete types falls through to its
+// default branch for them, and reflection-based fallbacks see their kind
+type (
+	c13NInt    int
+	c13NInt8   int8
+	c13NUint16 uint16
+	c13NUint64 uint64
+	c13NFloat  float64
+	c13NStr    string
+	c13NBytes  []byte
+	c13NBool   bool
+)
+
 func c13Values() []c13Val {
 	bs := []byte("by")
 	es := ""
 	var np *int
-	return []c13Val{
+	nu, ni, nf, ns := c13NUint16(3), c13NInt(-4), c13NFloat(2.5), c13NStr("n<s")
+	named := []c13Val{{"named-int", c13NInt(5)}, {"named-int8", c13NInt8(-7)}, {"named-uint16", c13NUint16(9)}, {"named-uint64", c13NUint64(math.MaxUint64)}, {"named-float", c13NFloat(1.25)},
+		{"named-str", c13NStr("named")}, {"named-bytes", c13NBytes("nb")}, {"named-bool", c13NBool(true)}, {"pnamed-uint16", &nu}, {"pnamed-int", &ni}, {"pnamed-float", &nf}, {"pnamed-str", &ns}}
+	return append(named, []c13Val{
 		{"nil", nil}, {"int0", 0}, {"int-1", -1}, {"int7", 7}, {"maxint64", int64(math.MaxInt64)}, {"minint64", int64(math.MinInt64)}, {"int8", int8(-128)},
 		{"uint0", uint(0)}, {"maxuint64", uint64(math.MaxUint64)}, {"f0", 0.0}, {"f0.5", 0.5}, {"f-2.5", -2.5}, {"f3", 3.0}, {"NaN", math.NaN()}, {"+Inf", math.Inf(1)}, {"-Inf", math.Inf(-1)},
 		{"huge", 1e308}, {"tiny", 5e-324}, {"f1e18", 1e18}, {"f32", float32(1.5)}, {"str-empty", ""}, {"str-abc", "abc"}, {"str-12", "12"}, {"str-1e5", "1e5"}, {"str--0.5", "-0.5"}, {"str-5", "5"}, {"pstr-empty", &es},
 		{"bytes", []byte("b<\"")}, {"pbytes", &bs}, {"true", true}, {"false", false}, {"time", time.Unix(1600000000, 5)}, {"ptime", func() *time.Time { t := time.Unix(0, 0); return &t }()},
 		{"nilptr", np}, {"strs", []string{"a", "b"}}, {"map", map[string]any{"k": 1}}, {"struct", struct{ A int }{1}}, {"user", (UserSpec{Id: "1", HasFinance: true}).Build()},
-	}
+	}...)
 }
 
 var c13Mods = []string{"default", "ifThen", "ifThenElse", "jsonEscape", "jsonQuote", "htmlEscape", "linkEscape", "urlEncode", "attrEscape", "cssEscape", "jsEscape", "raw",
@@ -169,6 +185,12 @@ func init() {
 				run("mod", m, `{%= v|`+m+`(0.5) %}`, []string{"v"}, []c13Val{vals[i]})
 				run("mod", m, `{%= v|`+m+`(-3, 0) %}`, []string{"v"}, []c13Val{vals[i]})
 				run("mod", m, `{% ctx x = v|`+m+`(2) %}{%= x %}`, []string{"v"}, []c13Val{vals[i]})
+				if i < 6 {
+					// literal text arguments of degenerate shapes (a lone sign, blanks, a unit without a number …)
+					for _, lit := range []string{`"+"`, `"-"`, `" "`, `"+ "`, `"."`, `"-."`, `"e"`, `"1e"`, `"0x"`, `"%"`, `"d"`, `"+d"`, `"1 "`, `" 1"`, `"1  d"`, `"\\"`, `"()"`} {
+						run("mod-lit", m, `{%= v|`+m+`(`+lit+`) %}`, []string{"v"}, []c13Val{vals[i]})
+					}
+				}
 				for j := range vals {
 					run("mod", m, "{%= v|"+m+"(a) %}", []string{"v", "a"}, []c13Val{vals[i], vals[j]})
 				}
